@@ -34,7 +34,7 @@ ASSUMPTIONS = [
     "Exp with num_steps (Trotter approximation) is not compared exactly (C58).",
     "simplify idempotence is recorded (label simplify:not-idempotent) but not asserted: the statement only requires the linear map to be kept.",
 ]
-BUDGET = {"quick": {"examples": 1000}, "thorough": {"examples": 40000, "shards": 16}}
+BUDGET = {"quick": {"examples": 800}, "thorough": {"examples": 40000, "shards": 16}}
 SHRINK_LISTS = ("operands",)
 
 TOL = 1e-8
@@ -49,13 +49,19 @@ CONTROLLED_LEAVES = ["CNOT", "CY", "CZ", "CH", "CRX", "CRY", "CRZ", "CRot", "Con
 HERM_NAMES = ["PauliX", "PauliY", "PauliZ", "Hadamard", "Identity", "Hermitian", "Projector"]
 
 
+def _breaks():
+    """Classes documented (tests/ops/functions/conftest.py::_INSTANCES_TO_FAIL) as breaking an operator convention that
+    arithmetic relies on (SparseHamiltonian: non-tensor data; TmpPauliRot: private, has_matrix False)."""
+    return tuple(n for n, (_, _, t) in zoo.ZOO.items() if any(x.startswith("breaks:") for x in t))
+
+
 def _herm_leaf(wires):
-    ns = [n for n in zoo.names("herm") if zoo.ZOO[n][1] <= len(wires)]
+    ns = [n for n in zoo.names("herm", exclude=_breaks()) if zoo.ZOO[n][1] <= len(wires)]
     return st.sampled_from(ns).flatmap(lambda n: zoo.ZOO[n][0](wires))
 
 
 def _unit_leaf(wires):
-    opts = [zoo.leaf(wires, "unitary")] * 6
+    opts = [zoo.leaf(wires, "unitary", exclude=_breaks())] * 6
     # templates without a matrix whose decomposition is a unitary circuit (matrix obtained through qp.matrix's decomposition path)
     ns = [n for n in zoo.names("decomp") if zoo.ZOO[n][1] <= len(wires) and not zoo.ZOO[n][2] & {"channel", "stateprep", "nonunitary", "workwires"}]
     if ns:
@@ -258,13 +264,16 @@ def _stats(s, acc, depth=1):
     return acc
 
 
-def _close(A, B):
+def _close(A, B, tol=None):
     A = np.asarray(A)
     B = np.asarray(B)
     if A.shape != B.shape:
         return False
     scale = max(1.0, float(np.abs(B).max()))
-    return bool(np.all(np.abs(A - B) <= TOL * scale))
+    return bool(np.all(np.abs(A - B) <= (tol or _TOL[0]) * scale))
+
+
+_TOL = [TOL]  # 1e-6 while checking an expression with a fractional power (scipy's Schur-Pade power is ~1e-8 accurate)
 
 
 def _qmatrix(op, order):
@@ -347,6 +356,7 @@ def check(spec):
         return Result(False, labels=zoo_extra.coverage_labels())
     e = spec["expr"]
     order = [wire(w) for w in spec["order"]]
+    _TOL[0] = 1e-6 if opalg.power_chains(e) else TOL
     before = dict(opalg.FALLBACK_LEAVES)
     try:
         R, rw = opalg.evaluate(e, _leaf_fallback)
@@ -373,7 +383,18 @@ def check(spec):
     labels += ["leafref:" + k for k, v in opalg.FALLBACK_LEAVES.items() if v > before.get(k, 0)]
 
     # simplify keeps the linear map (twice, too)
-    S = qp.simplify(op)
+    try:
+        S = qp.simplify(op)
+    except IndexError as ex:
+        from pv.engine import _origin
+
+        origin, where = _origin(ex.__traceback__)
+        # input class of a known finding: a scaled / summed Identity factor inside a product (PennyLane's own simplification turns it
+        # into SProd(c, I()) on no wires)
+        if origin == "sut" and "Identity" in acc["leaves"] and "prod" in acc["ctors"]:
+            raise Viol("unexpected-exception", f"IndexError: {ex} expr={e}", sig=f"IndexError@{where}",
+                       features={"exc": "IndexError", "where": where, "wireless_identity_sprod": True}) from None
+        raise
     MS = _qmatrix(S, order) if set(S.wires) <= set(order) else None
     if MS is None or not _close(MS, R):
         raise _mismatch("simplify", e, MS, order, f"expr={e} built={op!r} simplified={S!r} diff={None if MS is None else maxdiff(MS, R)}", sig, feats)
